@@ -167,7 +167,10 @@ fn field_access(
             .map_err(|errs| access_field_cause(&errs, other, entity_name, name, msg))?;
 
         let field_ty_exp = Expected::new(accessed.pos, &Type { name: field.ty });
+        // the accessed expression has exactly the type of the field, whether it is read or written to
         constraints.push("field access", &field_ty_exp, other);
+        constraints.push("field access", other, &field_ty_exp);
+        pushed += 1;
         pushed += 1;
     }
 
